@@ -963,17 +963,23 @@ impl Instructions<Code, Temporary, Immediate> for Backend {
     }
 
     fn add_and_jump(temporary: Temporary, immediate: Immediate, instructions: &mut Vec<Code>) {
-        match temporary {
-            Temporary::Register(register) => {
-                instructions.push(Code::ADDI(register, register, immediate));
-                instructions.push(Code::BR(register));
-            }
+        // the immediate of `ADD` has only 12 bits; a larger offset (a type with more than 1024
+        // xtors) is first loaded into the second scratch register, which is free here
+        let fits = (0..=4095).contains(&immediate.val);
+        let register = match temporary {
+            Temporary::Register(register) => register,
             Temporary::Spill(position) => {
                 instructions.push(Code::LDR(TEMP, Register::SP, stack_offset(position)));
-                instructions.push(Code::ADDI(TEMP, TEMP, immediate));
-                instructions.push(Code::BR(TEMP));
+                TEMP
             }
+        };
+        if fits {
+            instructions.push(Code::ADDI(register, register, immediate));
+        } else {
+            Self::load_immediate(Temporary::Register(TEMP2), immediate, instructions);
+            instructions.push(Code::ADD(register, register, TEMP2));
         }
+        instructions.push(Code::BR(register));
     }
 
     fn add(
